@@ -457,6 +457,12 @@ fn replay(ctx: &Ctx, v: Value) {
         sess.finish("replay of one recorded rule input", false, json!({}));
         return;
     }
+    if w25_replay(&mut sess, ctx, &v) || (v["kind"] == "apply" && w25_replay(&mut sess, ctx, &v["context"])) {
+        sess.nontrivial("replay-a");
+        sess.nontrivial("replay-b");
+        sess.finish("replay of one recorded w25 input (front-end / JS API / language server)", false, json!({}));
+        return;
+    }
     // an `apply` failure found on a real lint carries its document in `context`
     let v = if v["kind"] == "apply" && v["context"]["kind"] == "lint" { v["context"].clone() } else { v };
     match v["kind"].as_str().unwrap_or("") {
@@ -806,6 +812,9 @@ pub fn run(ctx: &Ctx) {
         }
     }
 
+    // w25: every front-end, more configurations and input families, the JS API, the language server
+    w25_run(&mut sess, ctx, &mut rng);
+
     // concrete rules against Model/Rules.lean: K, in-range and per-rule locality
     crate::rules::run_into(&mut sess, ctx, &mut rng);
     crate::leaves::run_into(&mut sess, ctx, &mut rng);
@@ -813,11 +822,698 @@ pub fn run(ctx: &Ctx) {
     crate::rules2::run_into(&mut sess, ctx, &mut rng);
     crate::mrules::run_into(&mut sess, ctx, &mut rng);
     sess.finish(
-        &format!("{} {} {} {} {} {}", crate::rules::RULE, crate::leaves::RULE, crate::prules::RULE, crate::rules2::RULE, crate::mrules::RULE, "corpus (the witnesses of Props/C03.lean); EXHAUSTIVE: every text of length ≤5 over {a,b} (quick) / ≤6 over {a,b,c} (thorough) × every span 0 ≤ s,e ≤ len+1 incl. start > end and end > len × Remove, ReplaceWith and InsertAfter with every replacement of length 0..3 over {b,x}; texts of distinct characters up to length 8/10 × spans up to len+2; all pull_by/push_by with values ≤ 4/5; span() of all lists of ≤3 tokens with endpoints ≤3; all pairs of edits on texts of ≤3/4 distinct characters back to front; RANDOM: texts up to 160 chars incl. non-ASCII with in-range, zero-width, past-the-end and reversed spans; sorted disjoint edit lists. O: documents built from the rule tests' sentences (1–3 concatenated, truncated, multi-byte and markup characters spliced in), each linted with every rule on (American, British) or the curated defaults, as plain English and as Markdown, by long-lived LintGroups, also embedded after prefixes so cached chunks are replayed at another offset: every lint start ≤ end ≤ len, every suggestion applied by the real apply = independent splice; remove_overlaps + back-to-front fix-all = simultaneous substitution. Non-trivial = result differs from the input text or panics; distinct by op line."),
+        &format!("{} {} {} {} {} {}", crate::rules::RULE, crate::leaves::RULE, crate::prules::RULE, crate::rules2::RULE, crate::mrules::RULE, "corpus (the witnesses of Props/C03.lean); EXHAUSTIVE: every text of length ≤5 over {a,b} (quick) / ≤6 over {a,b,c} (thorough) × every span 0 ≤ s,e ≤ len+1 incl. start > end and end > len × Remove, ReplaceWith and InsertAfter with every replacement of length 0..3 over {b,x}; texts of distinct characters up to length 8/10 × spans up to len+2; all pull_by/push_by with values ≤ 4/5; span() of all lists of ≤3 tokens with endpoints ≤3; all pairs of edits on texts of ≤3/4 distinct characters back to front; RANDOM: texts up to 160 chars incl. non-ASCII with in-range, zero-width, past-the-end and reversed spans; sorted disjoint edit lists. O: documents built from the rule tests' sentences (1–3 concatenated, truncated, multi-byte and markup characters spliced in), each linted with every rule on (American, British) or the curated defaults, as plain English and as Markdown, by long-lived LintGroups, also embedded after prefixes so cached chunks are replayed at another offset: every lint start ≤ end ≤ len, every suggestion applied by the real apply = independent splice; remove_overlaps + back-to-front fix-all = simultaneous substitution; w25: the same two clauses on Document::new + LintGroup::lint for every language id of the server (comment parsers, HTML, Typst, literate Haskell, git commit; also under CollapseIdentifiers / IsolateEnglish) under six configurations (four dialects, merged dictionary with user words, three rules explicitly on, a JSON configuration with false / null / unknown keys), on extra input families (empty and whitespace-only, tabs and space runs, CRLF, lone CR, lints across line breaks, astral / combining / fullwidth, very long words and documents, the same construct many times); harper_wasm::Linter::lint + apply_suggestion (4 dialects, import_words, JSON configuration, plain and Markdown, long-lived linters): span in range and apply_suggestion = splice; harper-ls in process (3 configurations; plaintext, mail, Markdown, HTML, Typst, git commit): every published range lies in the text the client sent and designates one of the lints of harper-core, every quick-fix TextEdit applied by a client = splice of one of their suggestions. Non-trivial = result differs from the input text or panics; distinct by op line."),
         true,
         json!({
             "exhaustive_scope": format!("texts ≤{} over {:?}; spans 0..len+1 (invalid included); replacements of length 0..3 over [b,x]", maxlen, alpha),
             "real_documents": ndocs, "real_lints": nlints, "threads": threads, "families": nfam, "real_fixall_documents": nfix,
         }),
     );
+}
+
+// =============================================================================================
+// w25 additions — the property at the call sites and in the configurations the streams above
+// never reach: every front-end of `frontends::language_ids()` (comment parsers, HTML, Typst,
+// literate Haskell, git commit; also wrapped in CollapseIdentifiers / IsolateEnglish), all four
+// dialects, a merged dictionary with user words, explicit / null / unknown configuration keys,
+// the JS API (`harper_wasm::Linter::lint` + `apply_suggestion`) and the language server
+// (published diagnostic ranges + quick-fix `TextEdit`s read the way an LSP client reads them).
+// All of it is O-only (no Lean op is involved).
+// =============================================================================================
+use harper_core::linting::LintGroupConfig;
+use harper_core::{CharString, MergedDictionary, MutableDictionary, WordMetadata};
+use std::sync::Arc;
+
+const W25_CONFIGS: [&str; 6] = [
+    "curated-defaults/American/merged[curated]",
+    "all-rules-on/Canadian/merged[curated]",
+    "all-rules-on/Australian/merged[curated]",
+    "all-rules-on/British/merged[curated,user-words]",
+    "three-rules-explicitly-on/American/merged[curated]",
+    "json-config(false,null,unknown-key,true)/American/merged[curated,user-words]",
+];
+
+/// user words: a misspelling, case variants, apostrophes (straight and curly), non-ASCII, a ligature
+const W25_USER_WORDS: &[&str] = &["gardn", "Mornng", "TEH", "o'clockish", "naïve", "don’t-ish", "ﬁx", "recieve"];
+
+const W25_JSON_CONFIG: &str = r#"{"SpellCheck":false,"LongSentences":null,"NoSuchRule":true,"BoringWords":true,"AnA":true}"#;
+
+fn w25_dict(user_words: bool) -> Arc<MergedDictionary> {
+    let mut d = MergedDictionary::new();
+    d.add_dictionary(FstDictionary::curated());
+    if user_words {
+        let mut user = MutableDictionary::new();
+        user.extend_words(W25_USER_WORDS.iter().map(|w| (w.chars().collect::<CharString>(), WordMetadata::default())));
+        d.add_dictionary(Arc::new(user));
+    }
+    Arc::new(d)
+}
+
+fn w25_group(cfg: usize) -> (LintGroup, Arc<MergedDictionary>) {
+    let dict = w25_dict(cfg == 3 || cfg == 5);
+    let dialect = match cfg {
+        1 => Dialect::Canadian,
+        2 => Dialect::Australian,
+        3 => Dialect::British,
+        _ => Dialect::American,
+    };
+    let mut g = LintGroup::new_curated(dict.clone(), dialect);
+    g.config.fill_with_curated();
+    match cfg {
+        1 | 2 | 3 => g.set_all_rules_to(Some(true)),
+        4 => {
+            g.set_all_rules_to(Some(false));
+            for r in ["SpellCheck", "RepeatedWords", "Spaces"] {
+                g.config.set_rule_enabled(r, true);
+            }
+        }
+        5 => {
+            if let Ok(mut c) = serde_json::from_str::<LintGroupConfig>(W25_JSON_CONFIG) {
+                g.config.merge_from(&mut c);
+                g.config.fill_with_curated();
+            }
+        }
+        _ => {}
+    }
+    (g, dict)
+}
+
+/// The property on a list of lints that some entry point reported for `text`: `start ≤ end ≤ len`
+/// (class `<prefix>-span-out-of-range`), and every suggestion applied by the real `apply` is the
+/// splice (classes `apply-panic` / `not-local` of `eval_apply`). Returns the number of suggestions.
+fn w25_eval_lints(sess: &mut Session, text: &str, lints: &[Lint], origin: &str, prefix: &str, ctx: &Value) -> usize {
+    let chars: Vec<char> = text.chars().collect();
+    let mut nsug = 0;
+    for l in lints {
+        sess.o();
+        sess.count(&format!("{}:lints", origin));
+        if !(l.span.start <= l.span.end && l.span.end <= chars.len()) {
+            sess.fail(
+                &format!("{}-span-out-of-range", prefix),
+                format!("{}: lint {:?} ({}) has span {}..{} in a text of {} chars", origin, l.lint_kind, trunc(&l.message, 80), l.span.start, l.span.end, chars.len()),
+                ctx.clone(),
+                None,
+            );
+            continue;
+        }
+        if l.span.start == l.span.end {
+            sess.count(&format!("{}:zero-width-lint", origin));
+        }
+        for sug in &l.suggestions {
+            nsug += 1;
+            eval_apply(sess, &chars, l.span.start, l.span.end, sug, origin, false, Value::Null);
+        }
+    }
+    nsug
+}
+
+/// Input families the sentence-based generator above does not write.
+fn w25_texts(rng: &mut Rng, sents: &[String], nrandom: usize, long_doc: usize) -> Vec<(String, &'static str)> {
+    let mut v: Vec<(String, &'static str)> = vec![];
+    for t in ["", " ", "\n", "\t\t", " \n \n", "\r\n", "\r", "\u{3000}\u{a0}", "\n\n\n"] {
+        v.push((t.to_string(), "empty-or-whitespace-only"));
+    }
+    for t in [
+        "Indented with a trailing tab.\t",
+        "A space and then a tab. \t",
+        "Two  spaces and\ttabs\t\t here  .\t\t",
+        "\t\tLeading tabs and the the word.\t \t",
+        "Tabs\t\tin the middle and an  apple.",
+    ] {
+        v.push((t.to_string(), "tabs-and-space-runs"));
+    }
+    for t in ["This is an test.\r\nThe the cat sat.\r\n", "It is the\r\nthe best.\r\n\r\nAn other  paragraph teh end.\r\n", "It is the\nthe best.\nAnd an\napple a day.\n"] {
+        v.push((t.to_string(), "crlf-or-lint-across-a-line-break"));
+    }
+    for t in ["This is an test.\rThe the cat sat.\r", "It is the\rthe best.\rteh end"] {
+        v.push((t.to_string(), "lone-cr"));
+    }
+    for t in [
+        "𝒜 the the 😀😀 teh é\u{301}e\u{301} ｆｕｌｌｗｉｄｔｈ　ｔｅｘｔ ＄５ an apple an apple.",
+        "😀😀😀 Ths is an test 𝒜𝒜. It costs 5 $ 3 times a year 😀. Pay me $ 25$ now.",
+        "e\u{301}\u{301}\u{301} teh ﬁx ﬁx naïve naïve cafe\u{301} the  the ． ｔｅｈ ｔｈｅ ｔｈｅ",
+        "“Teh the the”—an ’apple’… an an\u{a0}an 12th 1th 2st.",
+    ] {
+        v.push((t.to_string(), "astral-combining-fullwidth"));
+    }
+    v.push((format!("{} teh {} the the {}", "a".repeat(3000), "Z".repeat(600), "né".repeat(400)), "very-long-words"));
+    v.push((format!("{}.", "x".repeat(300)), "very-long-words"));
+    v.push(("teh teh teh the the the an apple an apple. ".repeat(20), "same-construct-many-times"));
+    v.push(("This is an test. ".repeat(30), "same-construct-many-times"));
+    {
+        let mut t = String::new();
+        for i in 0..long_doc {
+            t.push_str(&sents[rng.below(sents.len())]);
+            t.push_str(if i % 7 == 6 { "\n\n" } else { " " });
+        }
+        v.push((t, "very-long-document"));
+    }
+    const JOIN: &[&str] = &["\r\n", "\r", "\n", "\n\n", "\t", "  ", " 😀 ", "\u{3000}", " "];
+    const TAIL: &[&str] = &["", "\t", " \t", "\r\n", "\r", "  ", "\n", " teh", " It is recieve", " an apple an apple"];
+    for _ in 0..nrandom {
+        let mut t = String::new();
+        let k = rng.range(1, 4);
+        let first = rng.pick(sents).clone();
+        for j in 0..k {
+            if j > 0 {
+                t.push_str(*rng.pick(JOIN));
+            }
+            // the same sentence several times, or different ones
+            if rng.chance(1, 3) { t.push_str(&first) } else { t.push_str(rng.pick(sents).as_str()) }
+        }
+        t.push_str(*rng.pick(TAIL));
+        if rng.chance(1, 3) {
+            let mut cs: Vec<char> = t.chars().collect();
+            for _ in 0..rng.range(1, 3) {
+                let at = rng.below(cs.len() + 1);
+                cs.insert(at, *rng.pick(SPLICE));
+            }
+            t = cs.into_iter().collect();
+        }
+        v.push((t, "random-joined-sentences"));
+    }
+    v
+}
+
+fn w25_wrap_name(w: crate::frontends::Wrap) -> &'static str {
+    match w {
+        crate::frontends::Wrap::None => "none",
+        crate::frontends::Wrap::Collapse => "collapse-identifiers",
+        crate::frontends::Wrap::Isolate => "isolate-english",
+    }
+}
+
+fn w25_wrap_of(s: &str) -> crate::frontends::Wrap {
+    match s {
+        "collapse-identifiers" => crate::frontends::Wrap::Collapse,
+        "isolate-english" => crate::frontends::Wrap::Isolate,
+        _ => crate::frontends::Wrap::None,
+    }
+}
+
+/// One document of language `id` through `Document::new` + a long-lived `LintGroup` of configuration `cfg`.
+fn w25_eval_frontend_doc(sess: &mut Session, group: &mut LintGroup, dict: &Arc<MergedDictionary>, cfg: usize, id: &str, ilt: bool, wrap: crate::frontends::Wrap, text: &str, fam: &str) {
+    let Some(parser) = crate::frontends::wrapped(id, ilt, wrap) else {
+        sess.count("frontend:no-parser-for-id");
+        return;
+    };
+    sess.count(&format!("frontend:{}", id));
+    sess.count(&format!("frontend-wrap:{}", w25_wrap_name(wrap)));
+    sess.count(&format!("frontend-config:{}", W25_CONFIGS[cfg]));
+    sess.count(&format!("frontend-family:{}", fam));
+    let lints = guarded(|| {
+        let doc = Document::new(text, &parser, dict);
+        group.lint(&doc)
+    });
+    let Ok(lints) = lints else {
+        sess.count("frontend:lint-panicked(skipped, C01)");
+        return;
+    };
+    let ctx = json!({"kind": "w25-frontend", "lang": id, "ignore_link_title": ilt, "wrap": w25_wrap_name(wrap), "config": cfg, "text": text});
+    let n = w25_eval_lints(sess, text, &lints, "frontend-lint", "frontend", &ctx);
+    if n > 0 {
+        sess.nontrivial(&format!("frontend|{}|{}|{}", id, cfg, text));
+    }
+}
+
+fn w25_frontends_stream(sess: &mut Session, rng: &mut Rng, sents: &[String], texts: &[(String, &'static str)], styles: usize) {
+    use crate::frontends::Wrap;
+    let mut groups: Vec<(LintGroup, Arc<MergedDictionary>)> = (0..W25_CONFIGS.len()).map(w25_group).collect();
+    // (a) the new input families as plain English and as Markdown (both link-title options), configurations in rotation
+    for (i, (text, fam)) in texts.iter().enumerate() {
+        for (j, (id, ilt)) in [("plaintext", false), ("markdown", false), ("markdown", true)].iter().enumerate() {
+            let cfg = (i + j) % W25_CONFIGS.len();
+            let (g, d) = &mut groups[cfg];
+            w25_eval_frontend_doc(sess, g, d, cfg, id, *ilt, Wrap::None, text, fam);
+        }
+    }
+    // (b) every language id of the server's table, prose embedded in the language's syntax
+    let typos = ["teh", "the the", "an apple an apple", "recieve", "gardn", "5 $ 3", "Ths is an test", "naïve  😀 teh"];
+    let ids = crate::frontends::language_ids();
+    let mut n = 0usize;
+    for id in &ids {
+        for style in 0..styles {
+            let pre = if rng.chance(1, 2) { "Ünïcode 😀 𝒜 first. " } else { "" };
+            let tail = if rng.chance(1, 2) { " It is teh" } else { "" };
+            let mut prose = format!("{}{} {} {}{}", pre, rng.pick(sents), rng.pick(&typos), rng.pick(sents), tail);
+            if rng.chance(1, 3) {
+                prose.push('\n');
+                prose.push_str(rng.pick(sents).as_str());
+            }
+            let mut text = crate::frontends::embed(id, &prose, style);
+            if rng.chance(1, 3) {
+                let mut cs: Vec<char> = text.chars().collect();
+                let at = rng.below(cs.len() + 1);
+                cs.insert(at, *rng.pick(SPLICE));
+                text = cs.into_iter().collect();
+            }
+            if rng.chance(1, 4) {
+                text = text.replace('\n', "\r\n");
+            }
+            let wrap = [Wrap::None, Wrap::None, Wrap::Collapse, Wrap::Isolate][(n + n / styles.max(1)) % 4];
+            let cfg = n % W25_CONFIGS.len();
+            let (g, d) = &mut groups[cfg];
+            w25_eval_frontend_doc(sess, g, d, cfg, id, n % 2 == 1, wrap, &text, "embedded-in-language-syntax");
+            // the same document again by the same group (cache replay), then behind a first line
+            if style == 0 {
+                w25_eval_frontend_doc(sess, g, d, cfg, id, n % 2 == 1, wrap, &text, "embedded-in-language-syntax");
+            }
+            n += 1;
+        }
+    }
+}
+
+// ---- the JS API
+
+fn w25_js_linter(di: usize) -> harper_wasm::Linter {
+    use harper_wasm::{Dialect as WDialect, Linter as WLinter};
+    let dialect = [WDialect::American, WDialect::British, WDialect::Australian, WDialect::Canadian][di % 4];
+    let mut js = WLinter::new(dialect);
+    match di % 4 {
+        1 => js.import_words(W25_USER_WORDS.iter().map(|w| w.to_string()).collect()),
+        2 => {
+            let _ = js.set_lint_config_from_json(W25_JSON_CONFIG.to_string());
+        }
+        3 => {
+            // every rule explicitly on
+            if let Ok(Value::Object(m)) = serde_json::from_str::<Value>(&js.get_lint_descriptions_as_json()) {
+                let all: serde_json::Map<String, Value> = m.keys().map(|k| (k.clone(), Value::Bool(true))).collect();
+                let _ = js.set_lint_config_from_json(Value::Object(all).to_string());
+            }
+        }
+        _ => {}
+    }
+    js
+}
+
+const W25_JS_SETUPS: [&str; 4] = ["American/default", "British/import_words", "Australian/json-config(false,null,unknown-key,true)", "Canadian/every-rule-true"];
+
+/// One text through `harper_wasm::Linter::lint` and every suggestion through `apply_suggestion`.
+fn w25_eval_js_doc(sess: &mut Session, js: &mut harper_wasm::Linter, di: usize, text: &str, markdown: bool) {
+    use harper_wasm::{Language, SuggestionKind};
+    let lang = if markdown { Language::Markdown } else { Language::Plain };
+    let chars: Vec<char> = text.chars().collect();
+    sess.count(&format!("js:{}:{}", if markdown { "markdown" } else { "plain" }, W25_JS_SETUPS[di % 4]));
+    let Ok(out) = guarded(|| js.lint(text.to_string(), lang)) else {
+        sess.count("js:lint-panicked(skipped, C01)");
+        return;
+    };
+    let ctx = json!({"kind": "w25-js", "setup": di % 4, "markdown": markdown, "text": text});
+    let mut nsug = 0;
+    for l in &out {
+        sess.o();
+        sess.count("js:lints");
+        let sp = l.span();
+        if !(sp.start <= sp.end && sp.end <= chars.len()) {
+            sess.fail("js-span-out-of-range", format!("harper_wasm::Linter::lint: lint ({}) has span {}..{} in a text of {} chars", trunc(&l.message(), 80), sp.start, sp.end, chars.len()), ctx.clone(), None);
+            continue;
+        }
+        for s in l.suggestions() {
+            let repl: Vec<char> = s.get_replacement_text().chars().collect();
+            let sug = match s.kind() {
+                SuggestionKind::Replace => Suggestion::ReplaceWith(repl),
+                SuggestionKind::InsertAfter => Suggestion::InsertAfter(repl),
+                SuggestionKind::Remove => Suggestion::Remove,
+            };
+            let want: String = splice(&chars, sp.start, sp.end, &sug).into_iter().collect();
+            sess.o();
+            nsug += 1;
+            sess.count("js:suggestions-applied");
+            match guarded(|| js.apply_suggestion(text.to_string(), l, &s)) {
+                Ok(Ok(got)) if got == want => {}
+                Ok(Ok(got)) => sess.fail(
+                    "js-fix-not-local",
+                    format!("harper_wasm apply_suggestion of {} at {}..{} gave {:?}, not the splice {:?}", sug_show(&sug), sp.start, sp.end, trunc(&got, 100), trunc(&want, 100)),
+                    ctx.clone(),
+                    None,
+                ),
+                Ok(Err(m)) => sess.fail("js-apply-failed", format!("harper_wasm apply_suggestion of {} at {}..{} failed: {}", sug_show(&sug), sp.start, sp.end, trunc(&m, 100)), ctx.clone(), None),
+                Err(m) => sess.fail("js-apply-failed", format!("harper_wasm apply_suggestion of {} at {}..{} panicked: {}", sug_show(&sug), sp.start, sp.end, trunc(&m, 100)), ctx.clone(), None),
+            }
+        }
+    }
+    if nsug > 0 {
+        sess.nontrivial(&format!("js|{}|{}|{}", di % 4, markdown, text));
+    }
+}
+
+fn w25_wasm_stream(sess: &mut Session, texts: &[(String, &'static str)]) {
+    let mut linters: Vec<harper_wasm::Linter> = (0..4).map(w25_js_linter).collect();
+    for (i, (text, fam)) in texts.iter().enumerate() {
+        if text.chars().count() > 6000 {
+            continue; // `apply_suggestion` re-parses the text for every suggestion
+        }
+        let di = i % 4;
+        sess.count(&format!("js-family:{}", fam));
+        for markdown in [false, true] {
+            w25_eval_js_doc(sess, &mut linters[di], di, text, markdown);
+        }
+        // the same long-lived linter on the text behind a first paragraph (cached chunks at another offset)
+        if i % 3 == 0 {
+            w25_eval_js_doc(sess, &mut linters[di], di, &format!("Ünïcode 😀 first.\n\n{}", text), i % 2 == 0);
+        }
+    }
+}
+
+// ---- the language server
+
+/// `(start, end)` of every line the way an LSP client counts them (terminators `\n`, `\r\n`, `\r`)
+fn w25_client_lines(src: &[char]) -> Vec<(usize, usize)> {
+    let mut out = vec![];
+    let mut start = 0;
+    let mut i = 0;
+    while i < src.len() {
+        if src[i] == '\r' && i + 1 < src.len() && src[i + 1] == '\n' {
+            out.push((start, i));
+            i += 2;
+            start = i;
+        } else if src[i] == '\n' || src[i] == '\r' {
+            out.push((start, i));
+            i += 1;
+            start = i;
+        } else {
+            i += 1;
+        }
+    }
+    out.push((start, src.len()));
+    out
+}
+
+/// The character offset of an LSP position, `None` if the position is not in the text (line past
+/// the last one, column past the end of the line, or column inside a surrogate pair).
+fn w25_client_offset(src: &[char], line: u32, character: u32) -> Option<usize> {
+    let lines = w25_client_lines(src);
+    let &(s, e) = lines.get(line as usize)?;
+    let mut units = 0usize;
+    let mut k = s;
+    while units < character as usize {
+        if k >= e {
+            return None;
+        }
+        units += src[k].len_utf16();
+        k += 1;
+    }
+    if units == character as usize { Some(k) } else { None }
+}
+
+struct W25Server {
+    name: &'static str,
+    cfg: Value,
+    dialect: Dialect,
+    linters: &'static str,
+    ilt: bool,
+}
+
+fn w25_server_scenarios() -> Vec<W25Server> {
+    vec![
+        W25Server { name: "default", cfg: json!({"harper-ls": {}}), dialect: Dialect::American, linters: "{}", ilt: false },
+        W25Server {
+            name: "British+linters(false,null,true)",
+            cfg: json!({"harper-ls": {"dialect": "British", "linters": {"SentenceCapitalization": false, "LongSentences": null, "BoringWords": true}}}),
+            dialect: Dialect::British,
+            linters: r#"{"SentenceCapitalization":false,"LongSentences":null,"BoringWords":true}"#,
+            ilt: false,
+        },
+        W25Server {
+            name: "Australian+IgnoreLinkTitle",
+            cfg: json!({"harper-ls": {"dialect": "Australian", "markdown": {"IgnoreLinkTitle": true}}}),
+            dialect: Dialect::Australian,
+            linters: "{}",
+            ilt: true,
+        },
+    ]
+}
+
+/// harper-core's lints for `text` under the server's configuration (empty user and file dictionaries)
+fn w25_core_lints(sc: &W25Server, lang: &str, text: &str) -> Option<Vec<Lint>> {
+    let dict = w25_dict(false);
+    let parser = crate::frontends::parser_for(lang, sc.ilt)?;
+    let cfg: LintGroupConfig = serde_json::from_str(sc.linters).ok()?;
+    guarded(|| {
+        let doc = Document::new(text, &parser, &dict);
+        let mut g = LintGroup::new_curated(dict.clone(), sc.dialect).with_lint_config(cfg);
+        g.config.fill_with_curated();
+        g.lint(&doc)
+    })
+    .ok()
+}
+
+/// One document through the real `Backend`: every published diagnostic must be a range IN the
+/// client's text with start ≤ end, must designate the characters (and carry the message) of one of
+/// harper-core's lints for that text, and every quick fix offered at its start, applied by a client
+/// to ITS text, must be the splice of one of those lints' suggestions.
+fn w25_eval_server_doc(sess: &mut Session, ls: &mut crate::lsclient::LsSession, sc: &W25Server, si: usize, n: usize, lang: &str, text: &str, close: bool) -> Result<(), crate::lsclient::LsError> {
+    use crate::lsclient::{did_close, did_open};
+    use tower_lsp::lsp_types::{CodeActionOrCommand, Diagnostic, Url};
+    let ext = match lang {
+        "markdown" => "md",
+        "html" => "html",
+        "typst" => "typ",
+        _ => "txt",
+    };
+    let uri = format!("file:///c03-server/s{}/doc{}.{}", si, n, ext);
+    let url = Url::parse(&uri).unwrap();
+    let src: Vec<char> = text.chars().collect();
+    let ctx = json!({"kind": "w25-server", "scenario": si, "lang": lang, "text": text});
+    sess.count(&format!("server:{}:{}", sc.name, lang));
+    let Some(lints) = w25_core_lints(sc, lang, text) else {
+        sess.count("server:core-lint-panicked(skipped, C01)");
+        return Ok(());
+    };
+    ls.notify("textDocument/didOpen", did_open(&uri, lang, text))?;
+    ls.quiesce(&sc.cfg)?;
+    let Some(publ) = ls.last_publication(&uri).cloned() else {
+        sess.o();
+        sess.fail("server-no-publication", "didOpen was not answered by a publishDiagnostics".into(), ctx, None);
+        return Ok(());
+    };
+    let diags: Vec<Diagnostic> = serde_json::from_value(publ).unwrap_or_default();
+    let want: Vec<(usize, usize, &str)> = lints.iter().filter(|l| l.span.start <= l.span.end && l.span.end <= src.len()).map(|l| (l.span.start, l.span.end, l.message.as_str())).collect();
+    let mut fixes: std::collections::HashSet<Vec<char>> = std::collections::HashSet::new();
+    for l in &lints {
+        if l.span.start <= l.span.end && l.span.end <= src.len() {
+            for sg in &l.suggestions {
+                fixes.insert(splice(&src, l.span.start, l.span.end, sg));
+            }
+        }
+    }
+    if lints.iter().any(|l| src[l.span.start.min(src.len())..l.span.end.min(src.len())].contains(&'\n')) {
+        sess.count("server:doc-with-a-lint-across-a-line-break");
+    }
+    let mut nfix = 0;
+    for d in &diags {
+        sess.o();
+        sess.count("server:diagnostics");
+        let a = w25_client_offset(&src, d.range.start.line, d.range.start.character);
+        let b = w25_client_offset(&src, d.range.end.line, d.range.end.character);
+        let (Some(a), Some(b)) = (a, b) else {
+            sess.fail(
+                "server-range-outside-text",
+                format!("harper-ls ({}) published {}:{}-{}:{} ({}), which is not a range of the text the client sent", sc.name, d.range.start.line, d.range.start.character, d.range.end.line, d.range.end.character, trunc(&d.message, 60)),
+                ctx.clone(),
+                None,
+            );
+            continue;
+        };
+        if a > b {
+            sess.fail("server-range-outside-text", format!("harper-ls ({}) published a range whose start {} is behind its end {}", sc.name, a, b), ctx.clone(), None);
+            continue;
+        }
+        if !want.contains(&(a, b, d.message.as_str())) {
+            sess.fail(
+                "server-lint-misplaced",
+                format!("harper-ls ({}) published [{},{}) {:?}; harper-core's lints for that text are {:?}", sc.name, a, b, trunc(&d.message, 60), want.iter().take(6).map(|w| (w.0, w.1)).collect::<Vec<_>>()),
+                ctx.clone(),
+                None,
+            );
+            continue;
+        }
+        if a == b {
+            sess.count("server:zero-width-diagnostic(no code-action request)");
+            continue;
+        }
+        let params = json!({"textDocument": {"uri": uri}, "range": {"start": {"line": d.range.start.line, "character": d.range.start.character}, "end": {"line": d.range.start.line, "character": d.range.start.character}}, "context": {"diagnostics": []}});
+        let resp = ls.request_sync("textDocument/codeAction", params, &sc.cfg)?;
+        let acts: Vec<CodeActionOrCommand> = serde_json::from_value(resp["result"].clone()).unwrap_or_default();
+        for act in &acts {
+            let CodeActionOrCommand::CodeAction(ca) = act else { continue };
+            let Some(edits) = ca.edit.as_ref().and_then(|we| we.changes.as_ref()).and_then(|ch| ch.get(&url)) else { continue };
+            for te in edits {
+                sess.o();
+                nfix += 1;
+                sess.count("server:quick-fixes-applied");
+                let ea = w25_client_offset(&src, te.range.start.line, te.range.start.character);
+                let eb = w25_client_offset(&src, te.range.end.line, te.range.end.character);
+                let applied = match (ea, eb) {
+                    (Some(ea), Some(eb)) if ea <= eb => {
+                        let mut out: Vec<char> = src[..ea].to_vec();
+                        out.extend(te.new_text.chars());
+                        out.extend_from_slice(&src[eb..]);
+                        Some(out)
+                    }
+                    _ => None,
+                };
+                match applied {
+                    None => sess.fail(
+                        "server-range-outside-text",
+                        format!("harper-ls ({}) quick fix {:?} edits {}:{}-{}:{}, which is not a range of the text the client sent", sc.name, ca.title, te.range.start.line, te.range.start.character, te.range.end.line, te.range.end.character),
+                        ctx.clone(),
+                        None,
+                    ),
+                    Some(out) if !fixes.contains(&out) => sess.fail(
+                        "server-fix-not-local",
+                        format!("harper-ls ({}) quick fix {:?} at [{},{}) applied by a client gives {:?}, which is not the splice of any suggestion of harper-core's lints", sc.name, ca.title, a, b, trunc(&out.iter().collect::<String>(), 100)),
+                        ctx.clone(),
+                        None,
+                    ),
+                    _ => {}
+                }
+            }
+        }
+    }
+    if nfix > 0 {
+        sess.nontrivial(&format!("server|{}|{}|{}", si, lang, text));
+    }
+    if close {
+        ls.notify("textDocument/didClose", did_close(&uri))?;
+    } else {
+        sess.count("server:document-left-open(others are opened and re-opened next to it)");
+    }
+    Ok(())
+}
+
+fn w25_server_texts(rng: &mut Rng, sents: &[String], n: usize) -> Vec<(String, String)> {
+    let mut v: Vec<(String, String)> = vec![];
+    for (lang, t) in [
+        ("plaintext", "It is the\nthe best.\n"),
+        ("plaintext", "😀 𝒜 Ths is an test.\nIt is the\nthe best of the\nthe lot.\n"),
+        ("markdown", "# Ths is a tset\n\nIt is the\nthe best, é\u{301} and an\napple.\n"),
+        ("plaintext", "It is the\r\nthe best.\r\nAn other  paragraph teh end.\r\n"),
+        ("mail", "Two  spaces and an apple an apple.\n\nteh end\n"),
+        ("git-commit", "Fix teh bug\n\nThis is an test of the\nthe parser.\n# Please enter the commit message\n"),
+        ("html", "<html><body><p>Ths is an test of the\nthe parser 😀.</p>\n<p title=\"é\">An other teh.</p></body></html>\n"),
+        ("typst", "= Heading\nThs is an test of the\nthe parser 😀.\n#let x = 1\nAn other teh.\n"),
+        ("markdown", "A [link teh](http://x.y \"titel text\") and the\nthe end.\n\n- item teh\n- 😀 an apple an apple\n"),
+    ] {
+        v.push((lang.to_string(), t.to_string()));
+    }
+    for i in 0..n {
+        let lang = ["plaintext", "markdown", "plaintext", "html", "typst", "git-commit"][i % 6];
+        let mut words: Vec<String> = vec![];
+        for _ in 0..rng.range(1, 3) {
+            words.extend(rng.pick(sents).split(' ').map(|w| w.to_string()));
+        }
+        // a repeated word, so that one lint probably crosses the line break put between the two
+        let at = rng.below(words.len());
+        let w = words[at].clone();
+        words.insert(at, w);
+        let mut t = String::new();
+        if i % 4 == 1 {
+            t.push_str("😀 𝒜 ");
+        }
+        for (k, w) in words.iter().enumerate() {
+            if k > 0 {
+                t.push_str(if k == at + 1 || rng.chance(1, 6) { if i % 5 == 2 { "\r\n" } else { "\n" } } else { " " });
+            }
+            t.push_str(w);
+        }
+        t.push('\n');
+        let text = match lang {
+            "html" => format!("<p>{}</p>\n", t),
+            "typst" => format!("= Heading\n{}#let x = 1\n", t),
+            "git-commit" => format!("Subject teh line\n\n{}# comment\n", t),
+            _ => t,
+        };
+        v.push((lang.to_string(), text));
+    }
+    v
+}
+
+fn w25_server_stream(sess: &mut Session, ctx: &Ctx, rng: &mut Rng, sents: &[String], n: usize) {
+    use crate::lsclient::{LsError, LsSession, set_home};
+    set_home(&ctx.out.join("c03-home"));
+    let texts = w25_server_texts(rng, sents, n);
+    for (si, sc) in w25_server_scenarios().iter().enumerate() {
+        let r: Result<(), LsError> = (|| {
+            let mut ls = LsSession::start()?;
+            ls.initialize(&sc.cfg)?;
+            for (k, (lang, t)) in texts.iter().enumerate() {
+                // every scenario sees the fixed texts; the random ones are dealt round robin
+                if k >= 9 && k % 3 != si {
+                    continue;
+                }
+                // harper-ls ends lines only at '\n' (recorded for C08 as c08-lone-cr): not this stream's business
+                let cs: Vec<char> = t.chars().collect();
+                if (0..cs.len()).any(|j| cs[j] == '\r' && (j + 1 >= cs.len() || cs[j + 1] != '\n')) {
+                    sess.count("server:text-with-lone-CR(skipped, C08)");
+                    continue;
+                }
+                // two of three documents stay open while the next ones are handled; every fourth is sent a second
+                // time under the same URI behind a first paragraph (the document's long-lived LintGroup replays its cache)
+                w25_eval_server_doc(sess, &mut ls, sc, si, k, lang, t, k % 3 == 0)?;
+                if k % 4 == 1 && matches!(lang.as_str(), "plaintext" | "markdown" | "mail") {
+                    sess.count("server:same-uri-sent-again-behind-a-first-paragraph");
+                    w25_eval_server_doc(sess, &mut ls, sc, si, k, lang, &format!("Ünïcode 😀 first.\n\n{}", t), true)?;
+                }
+            }
+            ls.shutdown(&sc.cfg)?;
+            Ok(())
+        })();
+        sess.monitor("the in-process language server completed the C03 session", r.is_ok());
+        if let Err(e) = r {
+            sess.count(&format!("server:session-error:{}", e.to_string().chars().take(60).collect::<String>()));
+        }
+    }
+}
+
+/// replay of the inputs recorded by the w25 streams; `true` if `v` was one of them
+fn w25_replay(sess: &mut Session, ctx: &Ctx, v: &Value) -> bool {
+    let text = v["text"].as_str().unwrap_or("").to_string();
+    match v["kind"].as_str().unwrap_or("") {
+        "w25-frontend" => {
+            let cfg = (v["config"].as_u64().unwrap_or(0) as usize).min(W25_CONFIGS.len() - 1);
+            let (mut g, d) = w25_group(cfg);
+            for _ in 0..2 {
+                w25_eval_frontend_doc(sess, &mut g, &d, cfg, v["lang"].as_str().unwrap_or("plaintext"), v["ignore_link_title"].as_bool().unwrap_or(false), w25_wrap_of(v["wrap"].as_str().unwrap_or("")), &text, "replay");
+            }
+            true
+        }
+        "w25-js" => {
+            let di = v["setup"].as_u64().unwrap_or(0) as usize;
+            let mut js = w25_js_linter(di);
+            for _ in 0..2 {
+                w25_eval_js_doc(sess, &mut js, di, &text, v["markdown"].as_bool().unwrap_or(false));
+            }
+            true
+        }
+        "w25-server" => {
+            use crate::lsclient::{LsError, LsSession, set_home};
+            set_home(&ctx.out.join("c03-home"));
+            let scs = w25_server_scenarios();
+            let si = (v["scenario"].as_u64().unwrap_or(0) as usize).min(scs.len() - 1);
+            let sc = &scs[si];
+            let r: Result<(), LsError> = (|| {
+                let mut ls = LsSession::start()?;
+                ls.initialize(&sc.cfg)?;
+                w25_eval_server_doc(sess, &mut ls, sc, si, 0, v["lang"].as_str().unwrap_or("plaintext"), &text, true)?;
+                ls.shutdown(&sc.cfg)?;
+                Ok(())
+            })();
+            sess.monitor("the in-process language server completed the C03 session", r.is_ok());
+            true
+        }
+        _ => false,
+    }
+}
+
+/// all w25 streams, called from `run`
+fn w25_run(sess: &mut Session, ctx: &Ctx, rng: &mut Rng) {
+    let thorough = ctx.tier == Tier::Thorough;
+    let sents = crate::corpus::sentences();
+    let mut r = rng.fork();
+    let texts = w25_texts(&mut r, sents, if thorough { 1500 } else { 120 }, if thorough { 400 } else { 60 });
+    w25_frontends_stream(sess, &mut r, sents, &texts, if thorough { 12 } else { 4 });
+    let js_texts: Vec<(String, &'static str)> = texts.iter().take(if thorough { 600 } else { 75 }).cloned().collect();
+    w25_wasm_stream(sess, &js_texts);
+    w25_server_stream(sess, ctx, &mut r, sents, if thorough { 240 } else { 24 });
 }
